@@ -219,68 +219,80 @@ func (h *H[T]) C10(rc *runCtx) *Violation {
 		drop(i)
 	}
 
-	for op := 0; op < nOps; op++ {
-		prog.Begin()
-		if op > 0 && !prog.More(cont) {
-			prog.End()
-			break
-		}
-		if sim.Sched.Coin(sim.GCNum, simrt.FaultDen) {
-			sim.GC()
-			if sim.Available() == 0 {
-				gcSinceEmpty = true
-			}
-		}
-		kind := prog.Draw(8)
-		switch {
-		case len(out) == 0 || (kind == 0 && len(out) < maxOut):
-			if v := doGet(); v != nil {
+	body := func() *Violation {
+		for op := 0; op < nOps; op++ {
+			prog.Begin()
+			if op > 0 && !prog.More(cont) {
 				prog.End()
-				return v
+				break
 			}
-		case kind == 1 || kind == 2:
-			doPut(prog.Draw(len(out)))
-		case kind == 3 && prog.Draw(4) == 0:
-			i := prog.Draw(len(out))
-			sim.Mix(0xb000)
-			sim.Tracef("op: forget #%d", out[i].serial)
-			drop(i)
-		default:
-			i := prog.Draw(len(out))
-			hb := out[i]
-			u := drawUse(prog)
-			var peer *signal.Buffer[T]
-			if len(out) > 1 {
-				peer = out[(i+1)%len(out)].cur
+			if sim.Sched.Coin(sim.GCNum, simrt.FaultDen) {
+				sim.GC()
+				if sim.Available() == 0 {
+					gcSinceEmpty = true
+				}
 			}
-			sim.Mix(0xc000 | uint64(u.kind))
-			grewBefore := hb.hs.grew
-			v := crosstalk(hb, useNames[u.kind], func() {
-				h.applyUse(&hb.cur, u, peer, &hb.hs, nil, func(format string, args ...any) {
-					sim.Tracef("op: use #%d: "+format, append([]any{hb.serial}, args...)...)
+			kind := prog.Draw(8)
+			switch {
+			case len(out) == 0 || (kind == 0 && len(out) < maxOut):
+				if v := doGet(); v != nil {
+					prog.End()
+					return v
+				}
+			case kind == 1 || kind == 2:
+				doPut(prog.Draw(len(out)))
+			case kind == 3 && prog.Draw(4) == 0:
+				i := prog.Draw(len(out))
+				sim.Mix(0xb000)
+				sim.Tracef("op: forget #%d", out[i].serial)
+				drop(i)
+			default:
+				i := prog.Draw(len(out))
+				hb := out[i]
+				u := drawUse(prog)
+				var peer *signal.Buffer[T]
+				if len(out) > 1 {
+					peer = out[(i+1)%len(out)].cur
+				}
+				sim.Mix(0xc000 | uint64(u.kind))
+				grewBefore := hb.hs.grew
+				v := crosstalk(hb, useNames[u.kind], func() {
+					h.applyUse(&hb.cur, u, peer, &hb.hs, nil, func(format string, args ...any) {
+						sim.Tracef("op: use #%d: "+format, append([]any{hb.serial}, args...)...)
+					})
 				})
-			})
-			rc.ops++
-			rc.tally("use_op", useNames[u.kind])
-			if hb.hs.grew && !grewBefore {
-				rc.probes[pGrownAppend]++
+				rc.ops++
+				rc.tally("use_op", useNames[u.kind])
+				if hb.hs.grew && !grewBefore {
+					rc.probes[pGrownAppend]++
+				}
+				if v != nil {
+					prog.End()
+					return v
+				}
 			}
-			if v != nil {
-				prog.End()
+			prog.End()
+		}
+		// Epilogue: return everything, then draw buffers again — reuse is the
+		// path the pool exists for.
+		for len(out) > 0 && prog.Draw(4) != 3 {
+			doPut(len(out) - 1)
+		}
+		for k := 1 + prog.Draw(4); k > 0; k-- {
+			if v := doGet(); v != nil {
 				return v
 			}
 		}
-		prog.End()
+		return nil
 	}
-	// Epilogue: return everything, then draw buffers again — reuse is the
-	// path the pool exists for.
-	for len(out) > 0 && prog.Draw(4) != 3 {
-		doPut(len(out) - 1)
-	}
-	for k := 1 + prog.Draw(4); k > 0; k-- {
-		if v := doGet(); v != nil {
-			return v
-		}
-	}
-	return nil
+	// The caller runs as a simulated task (the only one the harness creates):
+	// goroutines a modified library starts, its blocking operations, timers and
+	// the simulated clock are then under the scheduler's control here too.
+	sim.Strategy = 1 + sim.Sched.Draw(simrt.NumStrategies-1)
+	drawInner(sim)
+	drawClock(sim)
+	var result *Violation
+	sim.Go("caller", func(*simrt.Task) { result = body() })
+	sim.Run(2 * cont)
+	return result
 }
